@@ -36,6 +36,8 @@ ANCHORS = [('optiland.surfaces.surface_group', 'SurfaceGroup.trace'), ('optiland
            ('optiland.rays.base', 'BaseRays._process_input'), ('optiland.fields', 'FieldGroup.get_vig_factor')]
 RECORD_ATTRS = {'x', 'y', 'z', 'L', 'M', 'N', 'u', 'opd', 'intensity', 'aoi'}
 
+# (besides these call kinds, every case ends with: caller-owned argument arrays, batch independence, and a hand-made
+#  RealRays bundle through SurfaceGroup.trace)
 KINDS = ['trace-hexapolar', 'trace-uniform', 'trace-cross', 'trace-ring', 'trace-line_y', 'generic-array', 'generic-scalar',
          'generic-mixed', 'paraxial-scalars', 'paraxial-rays', 'seidels', 'third-order', 'wavefront', 'opd-fan', 'fftpsf',
          'fftmtf', 'geometric-mtf', 'spot', 'encircled', 'ray-fan', 'rms-spot-vs-field', 'rms-wave-vs-field', 'distortion',
@@ -402,3 +404,24 @@ def tail_checks(case, rec, lens, spec, vig):
     again = np.stack([sg.x, sg.y, sg.z, sg.L, sg.M, sg.N, sg.opd])
     rec.check('repeatable', np.array_equal(again, full, equal_nan=True), key='repeatable:after-unrelated-calls',
               msg='the same batch traced after unrelated trace/paraxial calls is not bit-identical')
+    # a hand-made bundle handed to SurfaceGroup.trace: the caller's arrays (one of them serving several attributes, as a
+    # caller naturally writes it) stay what they were, and the result is the one obtained from private copies
+    from optiland.rays import RealRays
+    h = 0.4 * float(np.ravel(lens.paraxial.EPD())[0]) / 2.0
+    z0 = -1.0 if spec['obj_t'] == 'inf' else -0.5 * float(spec['obj_t'])
+    xs, ys = h * Px, h * Py
+    zeros, ones = np.zeros(n), np.ones(n)
+    zarr, warr = np.full(n, z0), np.full(n, wl)
+    caller = [xs, ys, zarr, zeros, zeros, ones, ones, warr]            # `zeros` is L and M, `ones` is N and intensity
+    before = [c_.copy() for c_ in caller]
+    r1 = RealRays(*caller)
+    lens.surface_group.trace(r1)
+    got = np.stack([sg.x, sg.y, sg.z, sg.L, sg.M, sg.N, sg.opd, sg.intensity]).copy()
+    ok = all(np.array_equal(c_, b_) for c_, b_ in zip(caller, before))
+    rec.check('arguments-unchanged', ok, key='arguments-unchanged:realrays-bundle',
+              msg='SurfaceGroup.trace(RealRays(...)) modified an array owned by the caller of RealRays')
+    r2 = RealRays(*[b_.copy() for b_ in before])
+    lens.surface_group.trace(r2)
+    want = np.stack([sg.x, sg.y, sg.z, sg.L, sg.M, sg.N, sg.opd, sg.intensity])
+    rec.check('repeatable', np.array_equal(got, want, equal_nan=True), key='repeatable:realrays-bundle-from-shared-arrays',
+              msg='a bundle built from arrays shared between attributes traces differently from one built from private copies')
